@@ -13,7 +13,7 @@ Model of sneldb's aggregate path as the streaming executor runs it (bug for bug)
 * `AggregateSink` grouping (`sink/aggregate/{sink,group_key,columnar}.rs`): key = (bucket,
   group values); the un-grouped columnar fast path uses a key with `prehash: 0` that is `==`
   to, but hashes differently from, the key of the row path (`zero` flag below).
-* `into_partial` + `snapshot_aggregator` (`sink/aggregate/finalization.rs`,
+* `into_partial` (merging on equal partial keys) + `snapshot_aggregator` (`sink/aggregate/finalization.rs`,
   `aggregate/partial.rs`), the wire form of `PartialConverter::build_row`, the coordinator's
   `parse_aggregate_row` / `AggState::merge` / `emit_merged_groups` / `agg_state_to_scalar`
   (`command/handlers/query/merge/aggregate_stream.rs`).
@@ -408,19 +408,11 @@ def mergeOpt (o : Option (List St)) (v : List St) : List St :=
   | none => v
   | some cur => mergeVec cur v
 
-/-- `into_partial`: `HashMap::insert` per `(bucket, groups)` — a later entry *replaces* an earlier
-one. Iteration order of the sink's map is unspecified: `some zeroLast` says whether the columnar
-(`zero`) entries come last. `none` is the third possible outcome: the two `==` keys happened to
-meet in the hash table (equal 7-bit tags in the one probe group, ≈ 1 in 128), so the sink never
-held two groups; for the metrics that allow the columnar path (COUNT / TOTAL / AVG) that is the
-same as adding the two groups up. -/
-def intoPartial (mode : Option Bool) (t : AList SinkKey) : AList Key :=
-  match mode with
-  | some zeroLast =>
-    let ordered := t.filter (fun e => e.1.zero != zeroLast) ++ t.filter (fun e => e.1.zero == zeroLast)
-    ordered.foldl (fun acc e => acc.upsert e.1.key fun _ => e.2.map snapshot) []
-  | none =>
-    t.foldl (fun acc e => acc.upsert e.1.key fun o => mergeOpt o (e.2.map snapshot)) []
+/-- `into_partial` (since repo commit 829ebe3): per `(bucket, groups)` the snapshotted states of a
+sink group are inserted, or *merged* with `AggState::merge` into the entry that is already there.
+Two sink groups meet here exactly when a flow took both sink paths (`zero` true and false). -/
+def intoPartial (t : AList SinkKey) : AList Key :=
+  t.foldl (fun acc e => acc.upsert e.1.key fun o => mergeOpt o (e.2.map snapshot)) []
 
 /-- wire form of the key (`build_row` → `parse_aggregate_row`): `None` bucket ↦ `0`; a bucket
 whose i64 view is negative ↦ `None`; no PER clause ↦ `None`. -/
@@ -433,10 +425,7 @@ def wireKey (p : Plan) (k : Key) : Key :=
 
 /-- `merge_batch_into_groups` for one wire row -/
 def mergeInto (p : Plan) (t : AList Key) (e : Key × List St) : AList Key :=
-  t.upsert (wireKey p e.1) fun o =>
-    match o with
-    | none => e.2
-    | some cur => mergeVec cur e.2
+  t.upsert (wireKey p e.1) fun o => mergeOpt o e.2
 
 /-- the coordinator's table after all partial rows of all flows arrived (flow by flow) -/
 def coordinate (p : Plan) (partials : List (AList Key)) : AList Key :=
@@ -489,10 +478,9 @@ def limitRows {α : Type} (offset limit : Option Nat) (rows : List α) : List α
   | none => r
 
 /-- The whole pipeline for a list of flows (shard × {memtable, segments}), each a list of tagged
-rows. `zl i` is the outcome of the `i`-th flow's sink map (each sink has its own randomly seeded
-`HashMap`), see `intoPartial`. -/
-def runFlows (p : Plan) (zl : Nat → Option Bool) (flows : List (List TRow)) : AList Key :=
-  coordinate p (flows.zipIdx.map fun x => intoPartial (zl x.2) (sinkAgg p x.1))
+rows. -/
+def runFlows (p : Plan) (flows : List (List TRow)) : AList Key :=
+  coordinate p (flows.map fun fl => intoPartial (sinkAgg p fl))
 
 /-! ### the reference fold (specification) on the rows of one group -/
 
